@@ -326,16 +326,33 @@ def visit_agreement_rule(crate, prop, rule="C12.R2"):
         named_inl = set()
         for fnm in ("inline", "inline_flattened"):
             bb = fns.get(fnm)
+            can_return = bb is not None and any((not bb.is_cleanup(x)) and bb.term(x)["k"] == "return" for x in bb.reachable_from([0]))
             for _, t in (bb.calls() if bb is not None else []):
                 f = t.get("fn") or {}
                 a0 = (f.get("args") or [""])[0]
-                # `<Self as TS>::name()` inside a "cannot be flattened" panic message is not part of the rendered type
-                if f.get("trait") == "TS" and f["path"].split("::")[-1] == "name" and a0 != self_ty and a0 != "Self":
-                    named_inl |= _params_in(a0, params)
+                if f.get("trait") == "TS" and f["path"].split("::")[-1] == "name":
+                    if a0 != self_ty and a0 != "Self":
+                        named_inl |= _params_in(a0, params)
+                    elif can_return:
+                        # `inline()` that answers with `Self::name()` renders by name everything name() does; the same call inside
+                        # an unconditional "cannot be flattened" panic is a message, not a rendering
+                        named_inl |= set(named or ())
         vis_dep, _ = visited("visit_dependencies")
         vis_dep = vis_dep or set()
         if named_inl:
             r.inst(impl=self_ty, where="%s:%s" % (file, line), named_by_inline=sorted(named_inl), visited_by_visit_dependencies=sorted(vis_dep), ok=named_inl <= vis_dep)
+        # visiting is unconditional: what name()/inline() print does not depend on run-time properties of the argument
+        # (e.g. whether it has a file of its own), so what is visited must not either
+        for vf in ("visit_generics", "visit_dependencies"):
+            vb = fns.get(vf)
+            if vb is None:
+                continue
+            branches = [x for x in range(vb.n) if not vb.is_cleanup(x) and vb.term(x)["k"] == "switch"]
+            if branches:
+                r.inst(impl=self_ty, where="%s:%s" % (file, line), fn=vf, conditional=True)
+                r.fail(prop, "visit-conditional %s::%s" % (self_ty, vf),
+                       "%s() of %s branches on a run-time condition: a dependency that the rendered text mentions can be left unvisited (e.g. the generics of an element type that has a file of its own: `Vec<Wrapper<Dep>>` names `Dep` without depending on it)" % (vf, self_ty),
+                       file, line)
         if named_inl - vis_dep:
             r.fail(prop, "inline-names-unvisited %s" % self_ty,
                    "inline() renders %s by name, but visit_dependencies() does not visit %s itself (only forwards its dependencies): a type that inlines this one mentions the name without depending on it" %
